@@ -104,6 +104,9 @@ func (Engine) Run(t *tape.Tape, o eng.Opts) *eng.Result {
 	}
 	if sw.Intn(longOdds) == 1 { // a long run: few tasks hammering a small set of hot paths on one instance
 		p.MinTasks, p.MaxTasks, p.MinReqs, p.MaxReqs = 2, 3, 60, 110
+		if world.AutoMode && sched.RaceOn {
+			p.MinReqs, p.MaxReqs = 40, 60
+		}
 		if sw.Intn(2) == 1 {
 			// one family of routes: several static leaves and a placeholder under a dynamic parent
 			p.Patterns = world.RichPatterns[len(world.RichPatterns)-5:]
@@ -156,11 +159,17 @@ func (Engine) Run(t *tape.Tape, o eng.Opts) *eng.Result {
 		stormOdds = 40 // a hundred requests at statement granularity cost as much as dozens of ordinary runs
 	}
 	taskStorm := !cfgLong && sw.Intn(stormOdds) == 1
+	if world.AutoMode && sched.RaceOn {
+		taskStorm = false // a hundred tasks at statement granularity under the race detector: minutes per run
+	}
 	if os.Getenv("SIM_FORCE_STORM") != "" && !cfgLong { // experimentation knob, never set by the checks
 		taskStorm = true
 	}
 	if taskStorm {
 		p.MinTasks, p.MaxTasks, p.MinReqs, p.MaxReqs = 70, 120, 1, 1
+		if world.AutoMode {
+			p.MaxTasks = 84
+		}
 		p.MethodW = []int{30, 1, 4, 1, 1}
 		p.HotPm, p.HotPaths, p.HotStatic = 950, 1+sw.Intn(2), true
 		p.MwCounts = []int{0, 1}
